@@ -12,13 +12,15 @@ RA ra; RB rb; RA2 ra2;
 int ai[3]; int ai2[4]; clock ax[3];
 chan c; broadcast chan bc; urgent chan uc;
 const int ci = 1; const int[0,5] cbi = 1; const bool cbo = true; const double cd = 1.0;
+meta int mi; meta SA msa; meta SB msb; meta bool mbo; meta double md; meta RA mra;
 const RA cra = {1}; const RB crb = {1,2}; const RA2 cra2 = {1}; const int cai[3] = {1,2,3}; const int cai2[4] = {1,2,3,4};
 """
 TYNAME = {"int": "int", "bint": "int[0,5]", "bool": "bool", "double": "double", "clock": "clock", "scalarA": "SA",
           "scalarB": "SB", "recA": "RA", "recB": "RB", "recA2": "RA2"}
 ARR = {"arrInt": ("int", "[3]"), "arrInt2": ("int", "[4]"), "arrClock": ("clock", "[3]")}
-VARS = {"int": ["i", "1", "i + 1"], "bint": ["bi"], "bool": ["bo", "true", "!bo"], "double": ["d", "1.5", "d * 2.0"],
-        "clock": ["x"], "diff": ["x - y"], "scalarA": ["sa"], "scalarB": ["sb"], "recA": ["ra"], "recB": ["rb"],
+# (the meta spellings: a prefix on either operand must not decide whether two types fit)
+VARS = {"int": ["i", "1", "i + 1", "mi"], "bint": ["bi"], "bool": ["bo", "true", "!bo", "mbo"], "double": ["d", "1.5", "d * 2.0", "md"],
+        "clock": ["x"], "diff": ["x - y"], "scalarA": ["sa", "msa"], "scalarB": ["sb", "msb"], "recA": ["ra", "mra"], "recB": ["rb"],
         "recA2": ["ra2"], "arrInt": ["ai"], "arrInt2": ["ai2"], "arrClock": ["ax"], "chan": ["c"], "bchan": ["bc"], "uchan": ["uc"]}
 CONSTVAR = {"int": "ci", "bint": "cbi", "bool": "cbo", "double": "cd", "recA": "cra", "recB": "crb", "recA2": "cra2",
             "arrInt": "cai", "arrInt2": "cai2"}
@@ -138,7 +140,7 @@ def run(tier):
                     c.finding("c14:%s:%s,%s:accept" % (cs["op"], cs["a"], cs["b"]),
                               "swapping operands changes acceptance: `%s` -> %s, `%s` -> %s" % (text, got, exprs[j]["text"], got2),
                               {"decl": DECL, "e1": text, "r1": got, "m1": msgs, "e2": exprs[j]["text"], "r2": got2, "m2": msgs2})
-                elif got != got2:
+                elif got != got2 and "SYSTEM_META" not in (got, got2):      # `meta` is a prefix of the type, not its kind: the result of an inline-if carries the prefix of its first branch
                     c.finding("c14:%s:%s,%s:kind" % (cs["op"], cs["a"], cs["b"]),
                               "swapping operands changes the result kind: `%s` : %s, `%s` : %s" % (text, got, exprs[j]["text"], got2),
                               {"decl": DECL, "e1": text, "r1": got, "e2": exprs[j]["text"], "r2": got2})
